@@ -5,6 +5,8 @@ CONSTANTS
   Initials <- TNone
   Replies <- TNone
   Mins <- TNone
+  ValClasses <- TNone
+  VModes <- TNone
   Orig = FALSE
 POSTCONDITION AllConsumed
 CHECK_DEADLOCK FALSE
